@@ -319,7 +319,7 @@ def law_case(draw, shape_only=False):
                 case[nm] = {str(lab[int(t)]): v for t, v in case[nm].items()}
             case.update(W=W, means=means, variances=variances, dtypes={})
             p = pb
-    case["n"] = draw(st.sampled_from([0, 1, 3])) if shape_only else N_LAW if draw(st.integers(0, 39)) else draw(st.sampled_from([262144, 150001]))
+    case["n"] = draw(st.sampled_from([0, 1, 3])) if shape_only else N_LAW if draw(st.integers(0, 39)) else draw(st.sampled_from([262144, 150001, 1048593]))
     case["seed"] = draw(st.one_of(st.integers(2, 2 ** 32 - 1), st.integers(2, 2 ** 32 - 1), st.integers(1000, 2 ** 31), st.sampled_from([0, 1])))
     case["proj"] = [[draw(st.integers(-2, 2)) for _ in range(p)] for _ in range(2)]
     case["sub"] = "shape" if shape_only else "law"
